@@ -221,7 +221,7 @@ def run(ctx):
         if rng.random() < 0.2:
             b[-4:-2] = b[-2:]
         return bytes(b)
-    for _ in range(ctx.pick(4000, 60000)):
+    for _ in range(ctx.pick(4000, 30000)):
         ab = rand_float_bytes(rng.choice([4, 8]))
         v = vals.from_bytes(ab)
         rev.append({'op': 'reseed', 'kind': 'randomize', 'arg': list(ab), 'runs': reseed_runs('randomize', v, pres3()),
@@ -272,7 +272,7 @@ def run(ctx):
         v = sess.impl.randomiser._seed
         return clampi(v)
 
-    nhist = ctx.pick(40, 600)
+    nhist = ctx.pick(40, 300)
     for h in range(nhist):
         s = Sess()
         vb, x = bytes_of(s, 'MKS$(RND(0))')
